@@ -389,14 +389,9 @@ func expandPathItem(pathItem *PathItem, resolver *schemaLoader, basePath string)
 	}
 
 	parentRefs := make([]string, 0, smallPrealloc)
-	if err := resolver.deref(pathItem, parentRefs, basePath); resolver.shouldStopOnError(err) {
+	resolver, basePath, err := resolver.deref(pathItem, parentRefs, basePath)
+	if resolver.shouldStopOnError(err) {
 		return err
-	}
-
-	if pathItem.Ref.String() != "" {
-		transitiveResolver := resolver.transitiveResolver(basePath, pathItem.Ref)
-		basePath = transitiveResolver.updateBasePath(resolver, basePath)
-		resolver = transitiveResolver
 	}
 
 	pathItem.Ref = Ref{}
@@ -551,17 +546,11 @@ func expandParameterOrResponse(input interface{}, resolver *schemaLoader, basePa
 	parentRefs := make([]string, 0, smallPrealloc)
 	if ref != nil {
 		// dereference this $ref
-		if err = resolver.deref(input, parentRefs, basePath); resolver.shouldStopOnError(err) {
+		if resolver, basePath, err = resolver.deref(input, parentRefs, basePath); resolver.shouldStopOnError(err) {
 			return err
 		}
 
 		ref, sch, _ = getRefAndSchema(input)
-	}
-
-	if ref.String() != "" {
-		transitiveResolver := resolver.transitiveResolver(basePath, *ref)
-		basePath = resolver.updateBasePath(transitiveResolver, basePath)
-		resolver = transitiveResolver
 	}
 
 	if sch == nil {
